@@ -116,7 +116,7 @@ def enumerate_cases(tier, shard=0, nshards=1):
                 if name == 'CHOOSE' and pos not in (0, args[0]):
                     continue
                 for code in CODES:
-                    for mode in ('call', 'formula'):
+                    for mode in ('call', 'formula', 'cellref'):
                         out.append({'k': 'fn-err', 'fn': name, 'sample': si,
                                     'pos': pos, 'code': code, 'mode': mode})
     # (c)
@@ -384,7 +384,11 @@ def _fn_err(case, res):
         parts = []
         col = 0
         for i, a in enumerate(args):
-            if i == pos:
+            if i == pos and mode == 'cellref':
+                # the error comes out of a cell whose formula yields it
+                cells['Sheet1!ZY9'] = YIELD[code]
+                parts.append('ZY9')
+            elif i == pos:
                 parts.append(code)
             elif isinstance(a, list):
                 # array sample -> range of cells
